@@ -5,6 +5,9 @@
 #include "tls_pool.h"
 static int a0, a1, a2, b0;
 int main(void){
+#if defined(GARBAGE) && !defined(VERIF_NATIVE)
+  pool_garbage();                    /* thorough tier: pool nodes start with arbitrary contents (quick: fresh_node_clean covers initialisation) */
+#endif
   static myth_tls_tree_t t[1], other[1];
   int k0 = VERIF_CHOICE(), k1 = VERIF_CHOICE(), k2 = VERIF_CHOICE(), q = VERIF_CHOICE();
   ASSUME(-2 <= k0 && k0 <= myth_tls_n_keys + 1 && -2 <= k1 && k1 <= myth_tls_n_keys + 1 && -2 <= k2 && k2 <= myth_tls_n_keys + 1);
